@@ -232,6 +232,13 @@ theorem instr_labels (ctx : Ctx) : ∀ (i : EInstr) (s s' : St) (out : List MStm
   | .memoryFill, s, s', out, dead, hc, hw => by label_simple
   | .memoryInit seg, s, s', out, dead, hc, hw => by label_simple
   | .dataDrop seg, s, s', out, dead, hc, hw => by label_simple
+  | .atomicLoad o off, s, s', out, dead, hc, hw => by label_simple
+  | .atomicStore o off, s, s', out, dead, hc, hw => by label_simple
+  | .atomicRmw o off, s, s', out, dead, hc, hw => by label_simple
+  | .atomicCmpxchg o off, s, s', out, dead, hc, hw => by label_simple
+  | .atomicFence, s, s', out, dead, hc, hw => by label_simple
+  | .atomicNotify off, s, s', out, dead, hc, hw => by label_simple
+  | .atomicWait b off, s, s', out, dead, hc, hw => by label_simple
   | .numeric o, s, s', out, dead, hc, hw => by label_simple
   | .call f, s, s', out, dead, hc, hw => by label_simple
   | .callIndirect ty tbl, s, s', out, dead, hc, hw => by label_simple
